@@ -1,10 +1,10 @@
 import ViaGen.CH
 /-
-  The tie between the model and the C++ of `chunk_header::parse_char`, checked by the kernel on every run:
-  `ViaGen/CH.lean` is the translation of the function as it is in /repo NOW (tools/cxx2lean.py); the theorem below
-  states that the hand-written model `CH.parseChar` — the function all property theorems are about — computes the
-  same new state and the same returned bool for EVERY configuration, state and byte.  A change to the C++ that alters
-  the function's behaviour makes this stop checking.
+  The tie between the model and the C++ of `chunk_header::parse_char` and `chunk_header::parse`, checked by the kernel on every run:
+  `ViaGen/CH.lean` is the translation of the two functions as they are in /repo NOW (tools/cxx2lean.py); the theorems
+  below state that the hand-written model functions `CH.parseChar` and `CH.parse` — the functions all property theorems
+  are about — compute the same new state, the same remaining input and the same returned bool for EVERY configuration,
+  state and input.  A change to the C++ that alters the behaviour of one of them makes this stop checking.
 -/
 namespace Via
 
@@ -13,5 +13,27 @@ theorem CH_parseChar_translated (cfg : Cfg) (s : CH) (c : Byte) : GenCH.parseCha
   cases st <;> first
     | rfl
     | (simp only [GenCH.parseChar, CH.parseChar]; repeat' split) <;> simp_all
+
+/-- the translated loop (with the code after the loop inlined at its exits) against the model's loop + epilogue -/
+theorem CH_parseLoop_translated (cfg : Cfg) (buf : Bytes) : ∀ s : CH,
+    GenCH.parseLoop cfg s buf =
+      (let r := CH.loop cfg s buf
+       if r.2.2 then (r.1, r.2.1, false)
+       else ({ r.1 with valid := r.1.st == .valid }, r.2.1, r.1.st == .valid)) := by
+  induction buf with
+  | nil => intro s; simp [GenCH.parseLoop, CH.loop]
+  | cons c cs ih =>
+    intro s
+    unfold GenCH.parseLoop CH.loop
+    by_cases hv : s.st = .valid
+    · simp [hv]
+    · simp only [bne_iff_ne, ne_eq, hv, not_false_eq_true, ↓reduceIte, beq_iff_eq, CH_parseChar_translated]
+      cases hr : (CH.parseChar cfg s c).2
+      · simp
+      · simp [ih]
+
+theorem CH_parse_translated (cfg : Cfg) (s : CH) (buf : Bytes) : GenCH.parse cfg s buf = CH.parse cfg s buf := by
+  unfold GenCH.parse CH.parse
+  rw [CH_parseLoop_translated]
 
 end Via
